@@ -12,7 +12,8 @@ RULE = ("all multisets of 1-3 member sequences (members = every well-formed set 
         "non-trivial = two members share a (channel, pitch) and overlap or abut")
 ASSUMPTIONS = ["velocity of fused notes is not demanded", "members never carry two different signatures of one kind on one tick"]
 REQUIRED_FLAGS = ["after_history", "overlap_fused", "nested", "abutting_kept_separate", "identical_notes", "empty_member",
-                  "signature_repeat_dropped", "member_restates_own_signature_after_foreign_change", "different_durations", "permutation_checked", "receiver_nonempty"]
+                  "signature_repeat_dropped", "member_restates_own_signature_after_foreign_change", "different_durations", "permutation_checked", "receiver_nonempty", "five_or_more_members",
+                  "short_phrase_into_long_piece"]
 
 
 def context(tier, seed):
@@ -60,6 +61,11 @@ def units(ctx):
         yield ("sig", i)
     yield from hist.hist_units()
     yield ("long", 0)
+    for n in (33, 65, 129):
+        for r in range(4):
+            yield ("phrase", n, r)
+    for k in (4, 5, 6):
+        yield ("deep", k)
 
 
 def _fam(ms, durs=None):
@@ -69,6 +75,39 @@ def _fam(ms, durs=None):
 
 
 def gen_cases(unit, ctx):
+    if unit[0] == "phrase":
+        # scale: a short phrase merged with a long piece (33 / 65 / 129 notes); the phrase's note touches, overlaps or
+        # precedes the i-th note of the piece on the same channel and pitch - for EVERY i
+        p, (c0, c1) = ctx["p"], ctx["ch"]
+        _, n, r = unit
+        ns = lib.long_desc(n, p, (c0, c1, 3), 5, lens=(3, 9, 5, 14))
+        for i in range(r, n, 4):
+            o, l, pp, cc, _v = ns[i]
+            for ph in ([(o + l, 4, pp, cc, 70)], [(max(0, o - 4), min(4, o), pp, cc, 70)] if o else [], [(o + 1, l + 3, pp, cc, 70)],
+                       [(o + l, 2, pp, cc, 70), (o + l + 2, 2, pp, cc, 71)]):
+                if ph:
+                    yield {"members": [{"notes": [list(x) for x in ns], "events": [], "dur": None},
+                                       {"notes": [list(x) for x in ph], "events": [], "dur": None}]}
+        return
+    if unit[0] == "deep":
+        # scale in the number of members: k sequences all sounding one (channel, pitch) at once - nested, staircase,
+        # identical - every permutation (k <= 5) or all rotations and reversals (k = 6)
+        p, (c0, c1) = ctx["p"], ctx["ch"]
+        k = unit[1]
+        for shape in ("nested", "stairs", "same", "nested_plus_own"):
+            mems = []
+            for j in range(k):
+                if shape == "nested":
+                    notes = [[j, 40 - 2 * j, p, c0, 60 + j]]
+                elif shape == "stairs":
+                    notes = [[3 * j, 20, p, c0, 60 + j]]
+                elif shape == "same":
+                    notes = [[2, 9, p, c0, 60 + j]]
+                else:
+                    notes = [[j, 40 - 2 * j, p, c0, 60 + j], [50 + j, 3, p + 1 + j % 2, c1, 9]]
+                mems.append({"notes": notes, "events": [], "dur": None})
+            yield {"members": mems, "perms": "all" if k <= 5 else "rot"}
+        return
     if unit[0] == "long":
         p, (c0, c1) = ctx["p"], ctx["ch"]
         for n in (16, 48, 120):
@@ -197,7 +236,16 @@ def check_case(case, ctx):
     R.nontrivial = bool(facts & {"overlap_fused", "abutting_kept_separate", "nested", "identical_notes"})
     want_roll = lib.roll_of_notes(want_notes)
     n_exec = 0
-    for perm in sorted(set(itertools.permutations(range(len(mems))))):
+    if case.get("perms") == "rot":
+        k_ = len(mems)
+        perms = sorted({tuple((s + d * i) % k_ for i in range(k_)) for s in range(k_) for d in (1, -1)})
+    else:
+        perms = sorted(set(itertools.permutations(range(len(mems)))))
+    if len(mems) >= 5:
+        R.flags.append("five_or_more_members")
+    if len(mems) == 2 and len(mems[0]["notes"]) >= 33 and 0 < len(mems[1]["notes"]) <= 2:
+        R.flags.append("short_phrase_into_long_piece")
+    for perm in perms:
         for mode in ("into_empty", "into_first"):
             # members are built alternately through the absolute and the relative representation
             seqs = [hist.live_case(live_spec, core.Res(), ctx["p"], *ctx["ch"], hp=ctx["p"] - 20)[0] if mems[i].get("live") else
